@@ -229,10 +229,16 @@ class Run:
             return ups[0].zip_latest(*ups[1:])
         if k == "buffer":
             return ups[0].buffer(nd["n"])
+        def interval_of(nd):
+            # the interval as a number of seconds or (interval_str) as a pandas-style string: '1s', '500ms', ...
+            if nd.get("interval_str"):
+                iv = nd["interval"]
+                return "%dms" % int(round(iv * 1000)) if nd["interval_str"] == "ms" else "%gs" % iv
+            return nd["interval"]
         if k == "delay":
-            return ups[0].delay(nd["interval"])
+            return ups[0].delay(interval_of(nd))
         if k == "rate_limit":
-            return ups[0].rate_limit(nd["interval"])
+            return ups[0].rate_limit(interval_of(nd))
         if k == "map_async":
             job = self._async_fn(nd, me)
             if form == "args":
@@ -249,9 +255,9 @@ class Run:
                 return ups[0].map_async(job_k, parallelism=nd.get("parallelism", 1), tag="extra")
             return ups[0].map_async(job, parallelism=nd.get("parallelism", 1))
         if k == "timed_window":
-            return ups[0].timed_window(nd["interval"])
+            return ups[0].timed_window(interval_of(nd))
         if k == "timed_window_unique":
-            return ups[0].timed_window_unique(nd["interval"], key=mk(nd["key"]), keep=nd.get("keep", "first"))
+            return ups[0].timed_window_unique(interval_of(nd), key=mk(nd["key"]), keep=nd.get("keep", "first"))
         if k == "partition_timeout":
             key = mk(nd["key"]) if nd.get("key") else None
             return ups[0].partition(nd["n"], timeout=nd["timeout"], key=key)
